@@ -61,14 +61,43 @@ def _names(node):
     return {n.id for n in ast.walk(node) if isinstance(n, ast.Name)}
 
 
-def _stores_between(fnode, lo, hi, skip_stmt=None):
-    """Local names assigned on lines lo < line < hi (approximation)."""
+def _stores_between(fnode, lo, hi, skip_stmt=None, idx=None, node=None):
+    """Local names assigned on lines lo < line < hi (approximation).
+
+    A store in the *other* arm of an if/else that contains `node` cannot
+    reach it and is ignored."""
     out = set()
+    node_chain = {}
+    if idx is not None and node is not None:
+        cur = node
+        while id(cur) in idx.parent:
+            par = idx.parent[id(cur)]
+            if isinstance(par, ast.If):
+                node_chain[id(par)] = 'body' if any(
+                    cur is s for s in par.body) else (
+                    'orelse' if any(cur is s for s in par.orelse) else 'test')
+            cur = par
     for n in ast.walk(fnode):
         ln = getattr(n, 'lineno', None)
         if ln is None or not (lo < ln < hi):
             continue
         if isinstance(n, ast.Name) and isinstance(n.ctx, (ast.Store, ast.Del)):
+            if node_chain:
+                other = False
+                cur = n
+                while id(cur) in idx.parent:
+                    par = idx.parent[id(cur)]
+                    if id(par) in node_chain and isinstance(par, ast.If):
+                        arm = 'body' if any(cur is s for s in par.body) else (
+                            'orelse' if any(cur is s for s in par.orelse)
+                            else 'test')
+                        if arm != node_chain[id(par)] and 'test' not in (
+                                arm, node_chain[id(par)]):
+                            other = True
+                        break
+                    cur = par
+                if other:
+                    continue
             out.add(n.id)
     return out
 
@@ -221,14 +250,16 @@ def raw_conditions(idx: Index, node, stop=None):
     return out, fnode
 
 
-def facts(idx: Index, node, stop=None) -> list:
+def facts(idx: Index, node, stop=None, at_entry=False) -> list:
+    """at_entry=True: the conditions under which control *entered* the
+    branches enclosing node (re-assignments after the test are ignored)."""
     conds, fnode = raw_conditions(idx, node, stop)
     res = []
     nline = getattr(node, 'lineno', None)
     for test, pol, line in conds:
-        if fnode is not None and nline is not None:
+        if fnode is not None and nline is not None and not at_entry:
             lo = max(getattr(test, 'end_lineno', line) or line, line)
-            killed = _stores_between(fnode, lo, nline)
+            killed = _stores_between(fnode, lo, nline, idx=idx, node=node)
             # names assigned on the node's own line do not invalidate
             if killed & _names(test):
                 # keep conjuncts that do not mention re-assigned names
